@@ -3,7 +3,7 @@ from .types import Int, Real, Bool, Str, NoneT, DT, TD, Date, Opt, Ref, List, Di
 from .engine import contract, REG, Contract  # noqa
 
 
-def ghost(name, params, src, opaque=None, types=None):
+def ghost(name, params, src, opaque=None, types=None, reads=None):
     """opaque=<type>: uninterpreted outside contracts that `reveal` it (keeps queries small).
     types: declared parameter types of an opaque ghost (arguments are coerced, so that e.g. a Str and an
     Opt[Str] argument give the same application)."""
@@ -13,6 +13,11 @@ def ghost(name, params, src, opaque=None, types=None):
         if types is not None:
             REG.opaque_types = getattr(REG, "opaque_types", {})
             REG.opaque_types[name] = list(types)
+        if reads is not None:
+            # abstract function of the listed heap components (no definition): e.g. the answer of a method that is
+            # not itself under contract but whose inputs are known
+            REG.opaque_reads = getattr(REG, "opaque_reads", {})
+            REG.opaque_reads[name] = list(reads)
 
 
 from . import types as _T
